@@ -7,19 +7,32 @@
 //	                   writer is stuck inside conn.Write, then the session is closed from another goroutine (what a kick or
 //	                   the heartbeat expiry do).  Runs in a child process (re-exec of this test binary) so that a crash of
 //	                   the server process is an observation.  Observation: close_returned=..,creates=..,closes=..,peer_end=..
+//	reset-race n=N k=K hold=<0|1>
+//	                   N fresh sessions, each ended by K+2 INDEPENDENT close causes at the same instant: K direct Close()
+//	                   calls (kick / heartbeat expiry), the client's EOF (reader) and a failing write (writer).  hold=1: the
+//	                   causes arrive while Close's critical section is occupied (the harness holds the session's own mutex
+//	                   until all of them are waiting at it, then lets go: they pass through Close one after the other);
+//	                   hold=0: they are released together from a spin barrier.  Child process, as `reset-ws`.
+//	                   Observation: n=..,creates=..,removed1=<sessions with exactly one OnSessionClose>,closed1=<.. one
+//	                   conn.Close>,thrown=<Close calls that panicked>,left=<goroutines not released>
 package c05
 
 import (
 	"bufio"
+	"encoding/hex"
 	"fmt"
 	"io"
 	"net"
 	"os"
 	"os/exec"
+	"reflect"
+	"runtime"
 	"strings"
 	"sync"
+	"sync/atomic"
 	"testing"
 	"time"
+	"unsafe"
 
 	"cell2verif/hx"
 
@@ -237,4 +250,329 @@ func execWS(x *hx.T) string {
 		tail = tail[:300]
 	}
 	return fmt.Sprintf("panic server process died (%v): %s", err, strings.ReplaceAll(tail, "\n", " | "))
+}
+
+// ---------------------------------------------------------------- simultaneous close causes
+
+type raceConn struct {
+	mu       sync.Mutex
+	closes   int
+	inWrite  int32
+	gone     chan struct{} // the client went away: the pending read ends with EOF
+	wfail    chan struct{} // the pending write fails
+	closedCh chan struct{}
+}
+
+func (c *raceConn) GetNextMessage() ([]byte, error) {
+	select {
+	case <-c.gone:
+		return nil, io.EOF
+	case <-c.closedCh:
+		return nil, io.ErrClosedPipe
+	}
+}
+func (c *raceConn) Read(b []byte) (int, error) { return 0, io.EOF }
+func (c *raceConn) Write(b []byte) (int, error) {
+	atomic.StoreInt32(&c.inWrite, 1)
+	select {
+	case <-c.wfail:
+		return 0, io.ErrShortWrite
+	case <-c.closedCh:
+		return 0, io.ErrClosedPipe
+	}
+}
+func (c *raceConn) Close() error {
+	c.mu.Lock()
+	c.closes++
+	if c.closes == 1 {
+		close(c.closedCh)
+	}
+	c.mu.Unlock()
+	return nil
+}
+func (c *raceConn) LocalAddr() net.Addr                { return &net.TCPAddr{} }
+func (c *raceConn) RemoteAddr() net.Addr               { return &net.TCPAddr{} }
+func (c *raceConn) SetDeadline(t time.Time) error      { return nil }
+func (c *raceConn) SetReadDeadline(t time.Time) error  { return nil }
+func (c *raceConn) SetWriteDeadline(t time.Time) error { return nil }
+
+type raceImpl struct {
+	mu      sync.Mutex
+	creates int
+	removes map[pi.IClientSession]int
+}
+
+func (r *raceImpl) ProcessMessage(pi.IClientSession, *message.Message) {}
+func (r *raceImpl) OnSessionCreate(pi.IClientSession)                  { r.mu.Lock(); r.creates++; r.mu.Unlock() }
+func (r *raceImpl) OnSessionClose(s pi.IClientSession)                 { r.mu.Lock(); r.removes[s]++; r.mu.Unlock() }
+
+// sessionMutex: the one sync.Mutex among the fields of the session (whatever its name); nil if there is not exactly one
+func sessionMutex(s *session.ClientSession) (m *sync.Mutex) {
+	defer func() {
+		if e := recover(); e != nil {
+			m = nil
+		}
+	}()
+	v := reflect.ValueOf(s).Elem()
+	mt := reflect.TypeOf(sync.Mutex{})
+	n := 0
+	for i := 0; i < v.NumField(); i++ {
+		if v.Field(i).Type() == mt {
+			m = (*sync.Mutex)(unsafe.Pointer(v.Field(i).UnsafeAddr()))
+			n++
+		}
+	}
+	if n != 1 {
+		return nil
+	}
+	return m
+}
+
+// mutexWaiters: goroutines queued at the mutex (the runtime's own count, read-only peek at its state word)
+func mutexWaiters(m *sync.Mutex) int {
+	return int(atomic.LoadInt32((*int32)(unsafe.Pointer(m))) >> 3)
+}
+
+// TestRaceChild is the child process of `reset-race`
+func TestRaceChild(t *testing.T) {
+	op := os.Getenv("VERIF_RACE_CHILD")
+	if op == "" {
+		return
+	}
+	quiet()
+	fmt.Println("RACERESULT " + raceScenario(op))
+}
+
+func raceScenario(op string) string {
+	ws := hx.Words(op)
+	n, k, hold := hx.KVInt(ws, "n"), hx.KVInt(ws, "k"), hx.KVInt(ws, "hold") == 1
+	impl := &raceImpl{removes: map[pi.IClientSession]int{}}
+	cfg := session.NewSessionConfig(nil)
+	cfg.Impl = impl
+	time.Sleep(20 * time.Millisecond)
+	base := runtime.NumGoroutine()
+	var panics int32
+	conns := make([]*raceConn, 0, n)
+	sessions := make([]*session.ClientSession, 0, n)
+	held := 0
+	noCount := false
+	for i := 0; i < n; i++ {
+		c := &raceConn{gone: make(chan struct{}), wfail: make(chan struct{}), closedCh: make(chan struct{})}
+		s := session.NewClientSession(c, cfg)
+		s.Handle()
+		conns = append(conns, c)
+		sessions = append(sessions, s)
+		// the writer goes into conn.Write
+		s.Push("front.h.m", []byte("x"))
+		for j := 0; j < 2000 && atomic.LoadInt32(&c.inWrite) == 0; j++ {
+			time.Sleep(50 * time.Microsecond)
+		}
+		var m *sync.Mutex
+		if hold {
+			m = sessionMutex(s)
+		}
+		var start int32
+		var wg sync.WaitGroup
+		closer := func() {
+			defer wg.Done()
+			defer func() {
+				if e := recover(); e != nil {
+					atomic.AddInt32(&panics, 1)
+				}
+			}()
+			for atomic.LoadInt32(&start) == 0 {
+			}
+			s.Close()
+		}
+		if m != nil {
+			// Close's critical section is occupied while the causes arrive
+			m.Lock()
+			held++
+			atomic.StoreInt32(&start, 1)
+		}
+		for j := 0; j < k; j++ {
+			wg.Add(1)
+			go closer()
+		}
+		if m != nil {
+			close(c.gone)
+			close(c.wfail)
+			if noCount {
+				time.Sleep(2 * time.Millisecond)
+			} else {
+				j := 0
+				for ; j < 4000 && mutexWaiters(m) < k+2; j++ {
+					time.Sleep(25 * time.Microsecond)
+				}
+				// the waiter count cannot be read like this (another runtime): a plain pause from now on
+				noCount = j == 4000
+			}
+			m.Unlock()
+		} else {
+			time.Sleep(20 * time.Microsecond)
+			atomic.StoreInt32(&start, 1)
+			close(c.gone)
+			close(c.wfail)
+		}
+		wg.Wait()
+	}
+	// everything settles: one OnSessionClose and one conn.Close per session, all goroutines gone
+	left := 0
+	for i := 0; i < 2000; i++ {
+		left = runtime.NumGoroutine() - base
+		if left <= 0 {
+			break
+		}
+		time.Sleep(2 * time.Millisecond)
+	}
+	if left < 0 {
+		left = 0
+	}
+	removed1, closed1 := 0, 0
+	impl.mu.Lock()
+	for i, s := range sessions {
+		if impl.removes[s] == 1 {
+			removed1++
+		}
+		conns[i].mu.Lock()
+		if conns[i].closes == 1 {
+			closed1++
+		}
+		conns[i].mu.Unlock()
+	}
+	creates := impl.creates
+	impl.mu.Unlock()
+	return fmt.Sprintf("n=%d,creates=%d,removed1=%d,closed1=%d,thrown=%d,left=%d held=%d", n, creates, removed1, closed1, atomic.LoadInt32(&panics), left, held)
+}
+
+func execRace(x *hx.T, op string) string {
+	ws := hx.Words(op)
+	if n, k := hx.KVInt(ws, "n"), hx.KVInt(ws, "k"); n <= 0 || n > 20000 || k <= 0 || k > 64 {
+		return "bad-op"
+	}
+	cmd := exec.Command(os.Args[0], "-test.run", "^TestRaceChild$", "-test.timeout", "120s")
+	cmd.Env = append(os.Environ(), "VERIF_RACE_CHILD="+op, "VERIF_OUT=/dev/null")
+	out, err := cmd.CombinedOutput()
+	text := string(out)
+	for _, l := range strings.Split(text, "\n") {
+		if strings.HasPrefix(l, "RACERESULT ") {
+			r := strings.TrimPrefix(l, "RACERESULT ")
+			if i := strings.Index(r, " held="); i >= 0 {
+				// whether the session still has exactly one mutex to hold is not part of the observation
+				if r[i+1:] == "held=0" && hx.KVInt(ws, "hold") == 1 {
+					x.Count("race:no-mutex-to-hold")
+				}
+				r = r[:i]
+			}
+			return r
+		}
+	}
+	// the server process died
+	tail := text
+	if i := strings.Index(tail, "panic:"); i >= 0 {
+		tail = tail[i:]
+	}
+	if i := strings.Index(tail, "goroutine "); i > 0 {
+		tail = tail[:i]
+	}
+	if len(tail) > 200 {
+		tail = tail[:200]
+	}
+	return fmt.Sprintf("panic server process died (%v): %s", err, strings.TrimSpace(strings.ReplaceAll(strings.ReplaceAll(tail, "\n", " "), "\t", " ")))
+}
+
+// ---------------------------------------------------------------- websocket connections
+//
+//	reset-wsc pk=<pk,..> tail=<hex> [frag=1] [glue=1]
+//
+// one whole connection through the real WSAcceptor: every packet is one binary websocket message (frag=1: sent as two
+// fragments), then a message with the raw tail bytes (if any), then the client half-closes.  glue=1: the LAST two packets
+// travel in one message (WSConn.GetNextMessage takes exactly one packet per message: "bigger than expected" ends the
+// session).  Observation as for reset-tcp.
+
+func wsFrame(op byte, fin bool, payload []byte) []byte {
+	b0 := op
+	if fin {
+		b0 |= 0x80
+	}
+	hdr := []byte{b0}
+	n := len(payload)
+	switch {
+	case n < 126:
+		hdr = append(hdr, 0x80|byte(n))
+	case n < 65536:
+		hdr = append(hdr, 0x80|126, byte(n>>8), byte(n))
+	default:
+		hdr = append(hdr, 0x80|127, 0, 0, 0, 0, byte(n>>24), byte(n>>16), byte(n>>8), byte(n))
+	}
+	key := [4]byte{0x12, 0x34, 0x56, 0x78}
+	hdr = append(hdr, key[:]...)
+	out := make([]byte, len(hdr)+n)
+	copy(out, hdr)
+	for i := range payload {
+		out[len(hdr)+i] = payload[i] ^ key[i%4]
+	}
+	return out
+}
+
+func wsMessage(payload []byte, frag bool) []byte {
+	if !frag || len(payload) < 2 {
+		return wsFrame(2, true, payload)
+	}
+	h := len(payload) / 2
+	return append(wsFrame(2, false, payload[:h]), wsFrame(0, true, payload[h:])...)
+}
+
+func (e *tcpEnv) execWSC(op string) string {
+	ws := hx.Words(op)
+	if len(ws) == 0 || ws[0] != "reset-wsc" || e.addr == "" {
+		return "bad-op"
+	}
+	frag := hx.KVInt(ws, "frag") == 1
+	glue := hx.KVInt(ws, "glue") == 1
+	var msgs [][]byte
+	if v, _ := hx.KV(ws, "pk"); v != "" {
+		for _, w := range strings.Split(v, ",") {
+			b, ok := encPkt(w)
+			if !ok {
+				return "bad-op"
+			}
+			msgs = append(msgs, b)
+		}
+	}
+	if glue {
+		if len(msgs) < 2 {
+			return "bad-op"
+		}
+		n := len(msgs)
+		msgs = append(msgs[:n-2], append(append([]byte{}, msgs[n-2]...), msgs[n-1]...))
+	}
+	tailHex, _ := hx.KV(ws, "tail")
+	tail, err := hex.DecodeString(tailHex)
+	if err != nil {
+		return "bad-op"
+	}
+	if len(tail) > 0 {
+		msgs = append(msgs, tail)
+	}
+	return e.runConn(func() (net.Conn, error) { return wsDial(e.addr) }, func(conn net.Conn) {
+		for _, m := range msgs {
+			conn.Write(wsMessage(m, frag))
+		}
+	})
+}
+
+func genWSC(x *hx.T, i int) string {
+	op := genTCP(x, i)
+	ws := hx.Words(op)
+	pk, _ := hx.KV(ws, "pk")
+	tail, _ := hx.KV(ws, "tail")
+	op = fmt.Sprintf("reset-wsc pk=%s tail=%s", pk, tail)
+	if x.R.Intn(3) == 0 {
+		op += " frag=1"
+	}
+	if strings.Count(pk, ",") >= 1 && x.R.Intn(6) == 0 {
+		op += " glue=1"
+	}
+	return op
 }
